@@ -227,6 +227,16 @@ fn reps() -> Vec<Value> {
         Value::from(u128::MAX),
         Value::from(1u128 << 127),
         Value::from(36u128),
+        // just above the bounds of the narrower integer types, in wide encodings: must be reported
+        // out of range or handled exactly, never truncated
+        Value::from(1u64 << 32),
+        Value::from((1u64 << 32) + 1),
+        Value::from(1u64 << 63),
+        Value::from(1u128 << 64),
+        Value::from((1i128 << 64) + 1),
+        Value::from((1i128 << 65) + 3),
+        Value::from(-((1i128 << 64) + 2)),
+        Value::from(1i128 << 100),
         Value::from(0.0f64),
         Value::from(-0.0f64),
         Value::from(1.5f64),
@@ -1139,7 +1149,13 @@ fn random_cells(bs: &[B], rng: &mut Rng, n_str: usize, n_num: usize, n_range: us
             out.push(Cell { b: idx("round", "filter"), ri: usize::MAX, recv: Value::from(x), kw, shape: "regression:F15-method".into(), to_model: true });
         }
     }
-    let edge = [i128::MIN, i128::MIN + 1, -100_001, -100_000, -3, -1, 0, 1, 2, 3, 7, 99_999, 100_000, 100_001, i128::MAX - 1, i128::MAX, i64::MAX as i128, 1 << 100];
+    // steps and bounds beyond 64 bits with small spans (a step cast to usize would be truncated)
+    for step in [1i128 << 64, (1i128 << 64) + 1, (1i128 << 64) + 2, (1i128 << 65) + 1, 3 * (1i128 << 64), 1i128 << 100, i128::MAX, -(1i128 << 64), -((1i128 << 64) + 1), -(1i128 << 100), i128::MIN + 1, 1i128 << 32, (1i128 << 32) + 1, 1i128 << 63] {
+        for (start, end) in [(0i128, 5i128), (0, 1), (-3, 4), (5, 0), (4, -3), (0, 0), (1i128 << 64, (1i128 << 64) + 5), (-(1i128 << 70), -(1i128 << 70) + 2), (0, 1i128 << 66), (1i128 << 66, 0)] {
+            out.push(Cell { b: idx("range", "function"), ri: usize::MAX, recv: Value::undefined(), kw: vec![("start", Value::from(start)), ("end", Value::from(end)), ("step_by", Value::from(step))], shape: "range:wide-step".into(), to_model: true });
+        }
+    }
+    let edge = [i128::MIN, i128::MIN + 1, -(1i128 << 64) - 1, (1i128 << 64) + 1, 1i128 << 64, -100_001, -100_000, -3, -1, 0, 1, 2, 3, 7, 99_999, 100_000, 100_001, i128::MAX - 1, i128::MAX, i64::MAX as i128, 1 << 100];
     for _ in 0..n_range {
         let pick = |rng: &mut Rng| if rng.chance(1, 2) { *rng.pick(&edge) } else { rng.range(-30, 30) as i128 };
         let mut kw: Kw = Vec::new();
@@ -1151,7 +1167,12 @@ fn random_cells(bs: &[B], rng: &mut Rng, n_str: usize, n_num: usize, n_range: us
             2..=11 => start.saturating_add(rng.range(-60, 60) as i128),
             _ => pick(rng),
         };
-        let step = if rng.chance(1, 3) { pick(rng) } else { rng.range(-4, 4) as i128 };
+        let step = match rng.below(12) {
+            0..=3 => pick(rng),
+            4 => (1i128 << 64) * rng.range(1, 3) as i128 + rng.range(-2, 2) as i128,
+            5 => -((1i128 << 64) * rng.range(1, 3) as i128 + rng.range(-2, 2) as i128),
+            _ => rng.range(-4, 4) as i128,
+        };
         if rng.chance(4, 5) {
             kw.push(("start", Value::from(start)));
         }
